@@ -48,6 +48,7 @@ type Lit struct {
 	Val  bool   // value of the *named* atom (polarity already applied)
 	Pos  token.Pos
 	Expr ast.Expr
+	At   int // number of effects recorded on the path when the atom was decided
 }
 
 // Path is one explored path.
@@ -434,11 +435,12 @@ func (e *Engine) declVars(v *env, gd *ast.GenDecl, si, ni int, k cont) {
 				if obj == nil {
 					continue
 				}
+				v.bind[obj] = "zero:" + types.TypeString(obj.Type(), e.qual)
 				if b, ok := obj.Type().Underlying().(*types.Basic); ok && b.Kind() == types.Bool {
 					f := false
 					v.boolv[obj] = &f
+					v.bind[obj] = "false"
 				}
-				v.bind[obj] = "zero:" + types.TypeString(obj.Type(), e.qual)
 			}
 			continue
 		}
@@ -1121,7 +1123,7 @@ func (e *Engine) atom(v *env, a Atom, pos token.Pos, k func(*env, bool)) {
 	for _, b := range []bool{true, false} {
 		nv := v.clone()
 		nv.atoms[a.Key] = b
-		nv.lits = append(nv.lits, Lit{Key: a.Key, Name: name, Val: b != neg, Pos: pos, Expr: a.Expr})
+		nv.lits = append(nv.lits, Lit{Key: a.Key, Name: name, Val: b != neg, Pos: pos, Expr: a.Expr, At: len(v.events)})
 		k(nv, b)
 	}
 }
